@@ -172,6 +172,15 @@ var checkMWU = ev.Register("mwu-exact", func(c *Case) ev.Outcome {
 		if u.Attainable(w - 1) {
 			classes = append(classes, "mass-at-U-0.5")
 		}
+		pz, nz := false, false
+		for _, v := range append(append([]float64(nil), c.X1...), c.X2...) {
+			if v == 0 {
+				pz, nz = pz || !math.Signbit(v), nz || math.Signbit(v)
+			}
+		}
+		if pz && nz {
+			classes = append(classes, "zeros-of-both-signs")
+		}
 		if !symmetric(T) {
 			classes = append(classes, "asymmetric-T")
 		}
@@ -403,10 +412,32 @@ func drawCaseOpt(t *rapid.T, separated bool) *Case {
 		}
 	}
 	vals := gen.Increasing(t, len(T), rapid.IntRange(0, 4).Draw(t, "valStyle"), "vals")
+	// in a quarter of the cases one tie group is made of zeros of both signs: equal as numbers
+	// (one group, half a pair each), different as bit patterns
+	zeroGroup, negZeros := -1, 0
+	if rapid.IntRange(0, 3).Draw(t, "signedZeros") == 0 {
+		var groups []int
+		for g, tg := range T {
+			if tg >= 2 {
+				groups = append(groups, g)
+			}
+		}
+		if len(groups) > 0 {
+			g := rapid.SampledFrom(groups).Draw(t, "zeroGroup")
+			if v := gen.SignedZeros(vals, g, g); v != nil {
+				vals, zeroGroup = v, g
+				negZeros = rapid.IntRange(1, T[g]-1).Draw(t, "negZeros")
+			}
+		}
+	}
 	pooled := make([]float64, 0, N)
 	for g, tg := range T {
 		for k := 0; k < tg; k++ {
-			pooled = append(pooled, vals[g])
+			v := vals[g]
+			if g == zeroGroup && k >= negZeros {
+				v = 0 // vals[g] is -0
+			}
+			pooled = append(pooled, v)
 		}
 	}
 	// choose which n1 of the pooled values form sample 1
